@@ -1,0 +1,186 @@
+//! Virtual timestamp counter and global event log.
+//!
+//! When enabled, `TscTimestamp::start`/`end` return scripted readings instead
+//! of the hardware counter. Readings are kept per Divan thread index (0 for
+//! the calling thread, `N` for pool thread `divan-N`); a single global log
+//! gives all events (clock reads and harness events) one total order.
+//! Nothing here allocates after `reset`.
+
+use std::{
+    cell::Cell,
+    sync::{
+        atomic::{
+            AtomicBool, AtomicU64, AtomicUsize,
+            Ordering::{Relaxed, SeqCst},
+        },
+        Mutex,
+    },
+};
+
+pub const MAX_THREADS: usize = 64;
+pub const LOG_CAP: usize = 1 << 20;
+
+pub const EV_TS_START: u8 = 1;
+pub const EV_TS_END: u8 = 2;
+
+pub static ENABLED: AtomicBool = AtomicBool::new(false);
+
+/// If non-zero, every read advances the reading thread's time by this much
+/// *before* returning it ("uniform step" clock).
+pub static READ_STEP: AtomicU64 = AtomicU64::new(0);
+
+/// Total number of reads since the last `reset`.
+pub static READS: AtomicUsize = AtomicUsize::new(0);
+
+#[allow(clippy::declare_interior_mutable_const)]
+const ZERO: AtomicU64 = AtomicU64::new(0);
+
+/// Current virtual time of each thread, in ticks.
+pub static NOW: [AtomicU64; MAX_THREADS] = [ZERO; MAX_THREADS];
+
+static LOG_A: [AtomicU64; LOG_CAP] = [ZERO; LOG_CAP];
+static LOG_B: [AtomicU64; LOG_CAP] = [ZERO; LOG_CAP];
+static LOG_LEN: AtomicUsize = AtomicUsize::new(0);
+
+/// Scripted readings per thread: `(readings, cursor)`. While a thread's
+/// cursor is inside its script the script value is returned (and becomes the
+/// thread's current time); afterwards the thread's `NOW` is used.
+static SCRIPTS: Mutex<Vec<(Vec<u64>, usize)>> = Mutex::new(Vec::new());
+
+/// 0 for any non-pool thread, `N` for `divan-N`.
+pub fn thread_index() -> usize {
+    thread_local! {
+        static INDEX: Cell<usize> = const { Cell::new(usize::MAX) };
+    }
+    INDEX
+        .try_with(|c| {
+            if c.get() == usize::MAX {
+                let t = std::thread::current();
+                let i = t
+                    .name()
+                    .and_then(|n| n.strip_prefix("divan-"))
+                    .and_then(|n| n.parse::<usize>().ok())
+                    .unwrap_or(0);
+                c.set(i);
+            }
+            c.get()
+        })
+        .unwrap_or(0)
+}
+
+/// An event: `kind`, thread index, two payload words.
+#[derive(Clone, Copy, Debug, PartialEq, Eq)]
+pub struct Event {
+    pub kind: u8,
+    pub thread: u8,
+    pub a: u64,
+    pub b: u64,
+}
+
+/// Appends an event to the global log (lock-free, no allocation).
+pub fn log(kind: u8, a: u64, b: u64) {
+    let thread = thread_index() as u64;
+    let i = LOG_LEN.fetch_add(1, SeqCst);
+    if i < LOG_CAP {
+        LOG_B[i].store(b, Relaxed);
+        LOG_A[i].store(
+            ((kind as u64) << 56)
+                | ((thread & 0xFF) << 48)
+                | (a & 0xFFFF_FFFF_FFFF),
+            SeqCst,
+        );
+    }
+}
+
+/// Copies the log out.
+pub fn take_log() -> Vec<Event> {
+    let n = LOG_LEN.load(SeqCst).min(LOG_CAP);
+    let out = (0..n)
+        .map(|i| {
+            let a = LOG_A[i].load(SeqCst);
+            Event {
+                kind: (a >> 56) as u8,
+                thread: ((a >> 48) & 0xFF) as u8,
+                a: a & 0xFFFF_FFFF_FFFF,
+                b: LOG_B[i].load(SeqCst),
+            }
+        })
+        .collect();
+    LOG_LEN.store(0, SeqCst);
+    out
+}
+
+pub fn log_len() -> usize {
+    LOG_LEN.load(SeqCst)
+}
+
+/// Advances the calling thread's virtual time.
+pub fn advance(ticks: u64) {
+    let t = thread_index().min(MAX_THREADS - 1);
+    NOW[t].fetch_add(ticks, SeqCst);
+}
+
+pub fn now(thread: usize) -> u64 {
+    NOW[thread.min(MAX_THREADS - 1)].load(SeqCst)
+}
+
+/// Resets times, scripts, read counter and log.
+pub fn reset() {
+    for t in &NOW {
+        t.store(0, SeqCst);
+    }
+    READ_STEP.store(0, SeqCst);
+    READS.store(0, SeqCst);
+    LOG_LEN.store(0, SeqCst);
+    SCRIPTS.lock().unwrap().clear();
+}
+
+/// Installs scripted readings for `thread`.
+pub fn set_script(thread: usize, readings: Vec<u64>) {
+    let mut scripts = SCRIPTS.lock().unwrap();
+    if scripts.len() <= thread {
+        scripts.resize_with(thread + 1, Default::default);
+    }
+    scripts[thread] = (readings, 0);
+}
+
+/// The hook called by `TscTimestamp::start`/`end`.
+#[inline]
+pub fn read(is_start: bool) -> Option<u64> {
+    if !ENABLED.load(Relaxed) {
+        return None;
+    }
+    Some(read_slow(is_start))
+}
+
+#[inline(never)]
+fn read_slow(is_start: bool) -> u64 {
+    READS.fetch_add(1, SeqCst);
+    let t = thread_index().min(MAX_THREADS - 1);
+
+    let scripted = {
+        let mut scripts =
+            SCRIPTS.lock().unwrap_or_else(|e| e.into_inner());
+        match scripts.get_mut(t) {
+            Some((readings, cursor)) if *cursor < readings.len() => {
+                *cursor += 1;
+                Some(readings[*cursor - 1])
+            }
+            _ => None,
+        }
+    };
+
+    let value = match scripted {
+        Some(v) => {
+            NOW[t].store(v, SeqCst);
+            v
+        }
+        None => {
+            let step = READ_STEP.load(SeqCst);
+            NOW[t].fetch_add(step, SeqCst).wrapping_add(step)
+        }
+    };
+
+    log(if is_start { EV_TS_START } else { EV_TS_END }, 0, value);
+    value
+}
